@@ -149,8 +149,18 @@ def set_file_position(
             # This differentiates from None, allowing us to catch
             # a failed `tell()` later when trying to rewind the body.
             pos = _FAILEDTELL
+    elif hasattr(body, "read") or _is_one_shot_iterator(body):
+        # The position can't be recorded, so the body can't be sent again.
+        pos = _FAILEDTELL
 
     return pos
+
+
+def _is_one_shot_iterator(body: typing.Any) -> bool:
+    try:
+        return iter(body) is body
+    except TypeError:
+        return False
 
 
 def rewind_body(body: typing.IO[typing.AnyStr], body_pos: _TYPE_BODY_POSITION) -> None:
